@@ -171,7 +171,7 @@ func rtMeta(sig string, carve []string) vc.Meta {
 		Assumptions: rtAssumptions,
 		Gates: map[string]map[string]int{
 			"quick":    {"obs.schema_update": 50, "optional_columns_seen_appearing": 20, "batches": 500},
-			"thorough": {"obs.schema_update": 500, "optional_columns_seen_appearing": 25, "batches": 10000},
+			"thorough": {"obs.schema_update": 500, "optional_columns_seen_appearing": 22, "batches": 10000},
 		},
 		Excluded: carve,
 	}
@@ -188,7 +188,7 @@ func runRoundTrip(t *testing.T, prop string, sig canon.Signal) {
 		roundTripHistory(c, h, DefaultOpts(), prop)
 		c.Sample(map[string]any{"script": h.Script, "batches": len(h.Batches)})
 	})
-	r.Layer("history", e.Pick(400, 8000), func(c *vc.Case) {
+	r.Layer("history", e.Pick(400, 5000), func(c *vc.Case) {
 		g := gen.New(c.R, gen.DValid)
 		g.Carve = carve
 		h := GenHistory(c.R, g, []canon.Signal{sig}, e.Pick(8, 40), e.Pick(12, 40))
@@ -197,7 +197,7 @@ func runRoundTrip(t *testing.T, prop string, sig canon.Signal) {
 			c.Sample(map[string]any{"script": h.Script, "batches": len(h.Batches), "first_batch": clip(h.Batches[0].JSON(), 600)})
 		}
 	})
-	r.Layer("big", e.Pick(6, 60), func(c *vc.Case) {
+	r.Layer("big", e.Pick(6, 30), func(c *vc.Case) {
 		g := gen.New(c.R, gen.DValid)
 		g.Carve = carve
 		h := GenHistory(c.R, g, []canon.Signal{sig}, 3, e.Pick(400, 2000))
